@@ -28,12 +28,66 @@ ASSUMPTIONS = [
 F = rel("fake_trx")
 
 
-def r1_copy(L, repo):
+def _fold_trans(repo, ci, tr):
+    """TxMsg.trans folded over its complete decision space: requested header version None / 0 / 1, own version 0 / 1,
+    burst present or not; the other field values are opaque (the method can only copy them).
+    -> rows or None when the body does not fold"""
+    from consteval import Opaque
+    VER = params(tr)[1]
+    rows = []
+    import itertools
+    for ver_given, own_ver in itertools.product((None, 0, 1), (0, 1)):
+        for has_burst in (False, True):
+            made = []
+            env = {VER: ver_given, "self.fn": Opaque("self.fn"), "self.tn": Opaque("self.tn"),
+                   "self.ver": own_ver, "self.burst": Opaque("self.burst") if has_burst else None}
+            e = Ev(repo, ci.mod, env=env, self_cls=ci)
+
+            def mk(a, kw, made=made):
+                made.append((tuple(a), dict(kw)))
+                return Opaque("NEW%d" % len(made))
+            mk.wants_kw = True
+            e.hooks = {"RxMsg": mk, "self.ubit2sbit": lambda a: Opaque("ubit2sbit(%r)" % (tuple(a),))}
+            try:
+                r = e.run_block(tr.body)
+            except (Unknown, Raised):
+                return None
+            ret = r[1] if isinstance(r, tuple) else None
+            stores = {}
+            for k, v in e.env.items():
+                if isinstance(k, str) and "." in k and isinstance(e.env.get(k.split(".")[0]), Opaque) \
+                        and e.env[k.split(".")[0]].text.startswith("NEW"):
+                    stores[(e.env[k.split(".")[0]].text, k.split(".", 1)[1])] = v
+            rows.append((ver_given, own_ver, has_burst, made, ret, stores))
+    return rows
+
+
+def r1_copy(L, repo, force_shape=False):
     FD = rel("data_msg")
     L.unit(FD)
     ci, tr = repo.need_method("data_msg", "TxMsg", "trans")
     fn = "TxMsg.trans"
     L.fn(FD, fn)
+    rows = None if force_shape else _fold_trans(repo, ci, tr)
+    if rows is not None:
+        from consteval import Opaque
+        for ver_given, own_ver, has_burst, made, ret, stores in rows:
+            wantver = own_ver if ver_given is None else ver_given
+            want_made = [((), {"fn": Opaque("self.fn"), "tn": Opaque("self.tn"), "ver": wantver})]
+            want_st = {("NEW1", "burst"): Opaque("ubit2sbit(%r)" % ((Opaque("self.burst"),),))} if has_burst else {("NEW1", "nope_ind"): True}
+            L.require("C10.R1", FD, fn, "the copy is one new RxMsg with the sender's frame and timeslot number and the %s header version; %s [version requested=%s, burst present=%d, own version=%d]" % (
+                "requested" if ver_given is not None else "sender's", "hard bits become soft bits through ubit2sbit" if has_burst else "a missing burst becomes a NOPE indication", ver_given, has_burst, own_ver),
+                (want_made, Opaque("NEW1"), want_st), (made, ret, stores), line=tr.lineno)
+        L.structural("C10.R1 shape of TxMsg.trans (constructor keywords, decision table of the burst branch)", r1_copy_shape, L, repo)
+    else:
+        r1_copy_shape(L, repo)
+    r1_copy_rest(L, repo)
+
+
+def r1_copy_shape(L, repo):
+    FD = rel("data_msg")
+    ci, tr = repo.need_method("data_msg", "TxMsg", "trans")
+    fn = "TxMsg.trans"
     VER = params(tr)[1]
     ctor = [c for c in calls_in(tr) if canon(c.func) == "RxMsg"]
     L.require("C10.R1", FD, fn, "number of RxMsg constructions", 1, len(ctor))
@@ -67,6 +121,9 @@ def r1_copy(L, repo):
         extra = "".join(" %s=%d" % (u[:40], a[u]) for u in unknown)
         L.require("C10.R1", FD, fn, "hard bits become soft bits through ubit2sbit; a missing burst becomes a NOPE indication [burst missing=%d%s]" % (a[A], extra),
                   want, evs)
+
+
+def r1_copy_rest(L, repo):
     # legacy padding towards L1
     FT = rel("transceiver")
     L.unit(FT)
